@@ -58,6 +58,9 @@ class Ctx:
         self.samples = []
         self.traces_validated = 0
         self.known = load_known(prop)
+        self.parent = None        # set when this check runs as part of another one (include)
+        self.options = {}         # hints from the including check (e.g. which parts to run)
+        self.included = {}
 
     def quick(self):
         return self.tier == "quick"
@@ -278,6 +281,51 @@ class Ctx:
         self.violations.append({"key": key, "what": what, "replay": path})
         return True
 
+    def include(self, gid, accept=None, options=None, why=""):
+        """Run the growth check `gid` (checks/<gid>.py) as a part of this property's check: its
+        specification and binding cover code this property is anchored in. Divergences it observes on
+        the real code whose key `accept` admits (default: all) become verdicts of THIS property;
+        the others are printed as NOTE lines (they belong to `./check <gid>`). A growth check whose
+        machinery breaks is a NOTE, not a failure of this check."""
+        import importlib
+        sub = Ctx(gid, self.tier, self.seed, None)
+        sub.parent = self
+        sub.options = dict(options or {})
+        t0 = time.time()
+        info = {"why": why}
+        try:
+            importlib.import_module(gid).run(sub)
+        except Broken as e:
+            print("NOTE: property=%s included growth check %s could not run (%s); verdict from the remaining evidence" % (
+                self.prop, gid, str(e).splitlines()[0][:300] if str(e) else "broken"), flush=True)
+            info["broken"] = str(e)[:2000]
+        except subprocess.TimeoutExpired as e:
+            print("NOTE: property=%s included growth check %s timed out (%s)" % (self.prop, gid, e), flush=True)
+            info["broken"] = "timeout %s" % e
+        finally:
+            sub.cleanup()
+        self._merge_included(sub, gid, accept, info)
+        info["wall_s"] = round(time.time() - t0, 1)
+        self.included[gid] = info
+
+    def _merge_included(self, sub, gid, accept, info):
+        taken = 0
+        for v in sub.violations:
+            if accept is None or accept(v["key"]):
+                self.violations.append(v)
+                taken += 1
+            else:
+                print("NOTE: property=%s included growth check %s reports %s outside this property's scope (see ./check %s): %s" % (
+                    self.prop, gid, v["key"], gid, v["what"][:200]), flush=True)
+        for h in sub.known_hits:
+            if h["key"] not in [x["key"] for x in self.known_hits]:
+                self.known_hits.append(h)
+        self.tlc_runs += sub.tlc_runs
+        self.traces_validated += sub.traces_validated
+        info.update({"violations_taken": taken, "violations_out_of_scope": len(sub.violations) - taken,
+                     "states": sum(r["distinct"] or 0 for r in sub.tlc_runs), "impl_traces": sub.traces_validated,
+                     "coverage": {k: v for k, v in sub.coverage.items() if isinstance(v, (int, float, str))}})
+
     def absorb(self, res, engine, test, extra=None):
         """Fold an engine result into the context: divergences → report(), counters, samples."""
         for dv in (res.get("divergences") or []):
@@ -311,6 +359,8 @@ class Ctx:
         }
         cov.update(self.coverage)
         cov.update(level_extra or {})
+        if self.included:
+            cov["included_growth_checks"] = self.included
         ev = {
             "property_id": self.prop,
             "tier": self.tier,
@@ -325,6 +375,11 @@ class Ctx:
             os.makedirs(os.path.join(VERIF, "evidence"), exist_ok=True)
             with open(os.path.join(VERIF, "evidence", self.prop + ".json"), "w") as f:
                 json.dump(ev, f, indent=1, sort_keys=True, default=str)
+        if self.parent is not None:   # part of another check: the parent prints the verdict lines
+            log("%s (included in %s) %s: states=%d impl-traces=%d violations=%d known=%d wall=%.0fs" % (
+                self.prop, self.parent.prop, self.tier, states, self.traces_validated, len(self.violations),
+                len(self.known_hits), time.time() - self.t0))
+            return 1 if self.violations else 0
         for h in self.known_hits:
             print("KNOWN-FINDING: property=%s %s [%s]" % (self.prop, h["what"], h["key"]), flush=True)
         seen = set()
@@ -484,8 +539,26 @@ def main(argv):
     sys.path.insert(0, os.path.join(VERIF, "checks"))
     ctx = Ctx(a.prop, a.tier, seed, a.replay)
     try:
-        mod = importlib.import_module(a.prop)
-        rc = mod.run(ctx)
+        foreign = None
+        if a.replay:
+            try:
+                with open(a.replay) as f:
+                    foreign = json.load(f).get("property")
+            except (OSError, ValueError, AttributeError):
+                foreign = None
+        if foreign and foreign != a.prop and os.path.exists(os.path.join(VERIF, "checks", foreign + ".py")):
+            # a replay file written by a growth check that ran as part of this property's check
+            sub = Ctx(foreign, a.tier, seed, a.replay)
+            sub.parent = ctx
+            try:
+                importlib.import_module(foreign).run(sub)
+            finally:
+                sub.cleanup()
+            ctx._merge_included(sub, foreign, None, {})
+            rc = ctx.finish("model_checking", "replay of one recorded run of the included growth check " + foreign)
+        else:
+            mod = importlib.import_module(a.prop)
+            rc = mod.run(ctx)
     except Broken as e:
         print("BROKEN property=%s: %s" % (a.prop, e), flush=True)
         rc = 2
